@@ -147,6 +147,116 @@ emit(r1[2]) emit(r2[2]) emit(co(w))''',
 ]
 
 
+# programs that touch interpreter-owned state a script can influence or reach: the generator behind
+# math.random and the marker require() keeps in package.loaded[name] while a module loads (or after a
+# loader error).  c13_turn() hands control to the next state in the lock-step schedule.
+PERSTATE = [
+    r'''math.randomseed(42 + c13_which)
+local t = {}
+for r = 1, 6 do
+  for i = 1, 40 do t[#t + 1] = math.random(1000000) end
+  c13_turn()
+end
+t[#t + 1] = math.floor(math.random() * 1000000)
+t[#t + 1] = math.random(5, 10)
+emit(table.concat(t, ","))''',
+    r'''math.randomseed(7)
+local a = {}
+for i = 1, 400 do a[i] = math.random(1000) end
+c13_turn()
+math.randomseed(7)
+local same = 0
+for i = 1, 400 do if math.random(1000) == a[i] then same = same + 1 end if i % 100 == 0 then c13_turn() end end
+emit(same, a[1], a[200], a[400])''',
+    r'''local out = {}
+package.preload["c13mod"] = function(name)
+  local s = package.loaded[name]
+  out[#out + 1] = type(s)
+  out[#out + 1] = tostring((pcall(function() return type(debug.getmetatable(s)) end)))
+  out[#out + 1] = tostring((pcall(function() return s.leak end)))
+  if type(s) == "userdata" then
+    debug.setmetatable(s, { __index = { leak = "state " .. c13_which } })
+    c13_turn()
+    out[#out + 1] = tostring(s.leak)
+    c13_turn()
+    debug.setmetatable(s, nil)
+  end
+  return { ok = true }
+end
+local m = require("c13mod")
+emit(table.concat(out, " "), m.ok)''',
+    r'''local out = {}
+package.preload["c13bad"] = function(name) error("loader failed") end
+out[#out + 1] = tostring((pcall(require, "c13bad")))
+local s = package.loaded["c13bad"]
+out[#out + 1] = type(s)
+if type(s) == "userdata" then
+  out[#out + 1] = tostring((pcall(function() return type(debug.getmetatable(s)) end)))
+  debug.setmetatable(s, { __tostring = function() return "marked by " .. c13_which end })
+  c13_turn()
+  out[#out + 1] = tostring(s)
+  c13_turn()
+  debug.setmetatable(s, nil)
+end
+out[#out + 1] = tostring((pcall(require, "c13bad")))
+emit(table.concat(out, " "))''',
+]
+
+# walks everything a script can reach and reports every table / function / userdata / thread
+OWN_PROBE = r'''
+local seen = {}
+local function label(k) local t = type(k) if t == "string" or t == "number" or t == "boolean" then return tostring(k) end return "<" .. t .. ">" end
+local function visit(path, v, depth)
+  local t = type(v)
+  if t ~= "table" and t ~= "function" and t ~= "userdata" and t ~= "thread" then return end
+  if seen[v] then return end
+  seen[v] = true
+  c13_own(path, v)
+  if depth > 7 then return end
+  local ok, mt = pcall(function() local m = debug.getmetatable(v) if type(m) == "table" then return m end end)
+  if ok and mt then visit(path .. "<metatable>", mt, depth + 1) end
+  if t == "table" then
+    for k, x in pairs(v) do
+      visit(path .. "." .. label(k), x, depth + 1)
+      visit(path .. ".<key>", k, depth + 1)
+    end
+  elseif t == "function" then
+    local ok, env = pcall(debug.getfenv, v)
+    if ok then visit(path .. "<env>", env, depth + 1) end
+    for i = 1, 60 do
+      local n, u = debug.getupvalue(v, i)
+      if n == nil then break end
+      visit(path .. "<upvalue " .. i .. ">", u, depth + 1)
+    end
+  end
+end
+visit("_G", _G, 0)
+visit("string metatable", getmetatable(""), 0)
+if debug.getregistry then visit("registry", debug.getregistry(), 0) end
+visit("io.stdout", io.stdout, 0) visit("io.stdin", io.stdin, 0) visit("io.stderr", io.stderr, 0)
+visit("coroutine.create()", coroutine.create(function() end), 0)
+visit("coroutine.wrap()", coroutine.wrap(function() end), 0)
+visit("loadstring()", loadstring("return 1"), 0)
+visit("string.gmatch()", string.gmatch("a", "a"), 0)
+visit("pairs()", (pairs({})), 0) visit("ipairs()", (ipairs({})), 0)
+visit("newproxy()", newproxy and newproxy(true) or nil, 0)
+visit("channel.make()<metatable>", debug.getmetatable(channel.make(1)), 0)
+package.preload["c13own"] = function(name)
+  visit("package.loaded[name] while the module is loading", package.loaded[name], 0)
+  return true
+end
+require("c13own")
+package.preload["c13ownerr"] = function(name) error("x") end
+pcall(require, "c13ownerr")
+visit("package.loaded[name] after a loader error", package.loaded["c13ownerr"], 0)
+for i = 1, 20 do
+  local info = debug.getinfo(i, "f")
+  if not info then break end
+  visit("debug.getinfo(" .. i .. ").func", info.func, 0)
+end
+'''
+
+
 # ---- race detector output ---------------------------------------------------------
 
 _ACCESS_RE = re.compile(r'^((?:Previous )?(?:[Ww]rite|[Rr]ead|atomic write|atomic read)[^\n]*)\n((?:  [^\n]*\n)+)', re.M)
@@ -371,6 +481,9 @@ def build_corpus(tier, seed):
     for j, src in enumerate(LIBMIX):
         for rep in range(3 if tier == "thorough" else 1):
             progs.append({"id": 100001 + j * 10 + rep, "fam": "libmix", "src": src})
+    for j, src in enumerate(PERSTATE):
+        for rep in range(6 if tier == "thorough" else 2):
+            progs.append({"id": 300001 + j * 10 + rep, "fam": "perstate", "src": src})
     for j, src in enumerate(DBGNAMES):
         for rep in range(6 if tier == "thorough" else 2):
             progs.append({"id": 200001 + j * 10 + rep, "fam": "dbgnames", "src": src})
@@ -398,6 +511,58 @@ def run_shared(progs, tag, n, group, churn, gomaxprocs, verd, counts):
     if len(outs) != len(progs):
         raise vlib.Infra("c13-shared returned %d results for %d programs" % (len(outs), len(progs)))
     return outs
+
+
+def perstate_verdicts(recs, tag, stats):
+    out = []
+    for r in vlib.validate_batches("PerStateTrace", "PerStateTrace", recs, tag, batch=2000, parallel=4, timeout=900):
+        stats["states"] += r.distinct
+        stats["transitions"] += r.generated
+        vs = r.tag("VERDICT")
+        if len(vs) != r.nrecords:
+            raise vlib.Infra("PerStateTrace: %d verdicts for %d records (%s)" % (len(vs), r.nrecords, tag))
+        out.extend(vs)
+    return out
+
+
+def perstate_what(p):
+    """which interpreter-owned state the program of family perstate exercises (case key)"""
+    if "math.random" in p["src"]:
+        return "math.random:generator-shared-between-states"
+    if "package.loaded" in p["src"]:
+        return "require:package.loaded-marker-shared-between-states"
+    return "behaviour-differs"
+
+
+def decide_own(verd, stats, counts, samples, nstates=3):
+    """Disjoint: fresh states of one process must not be able to reach one and the same object"""
+    d = vlib.subdir("c13")
+    inp, outp = os.path.join(d, "own.json"), os.path.join(d, "own.ndjson")
+    with open(inp, "w") as f:
+        json.dump({"probe": OWN_PROBE, "states": nstates}, f)
+    vlib.run_harness(["c13-own", "--in", inp, "--out", outp], race=True, timeout=300)
+    o = vlib.read_ndjson(open(outp).read())[0]
+    if o.get("errs"):
+        raise vlib.Infra("ownership probe failed: %s" % o["errs"][0][:400])
+    rec = {"id": 1, "kind": "own", "own": [[x["id"] for x in st] for st in o["states"]], "solo": [], "runs": []}
+    v = perstate_verdicts([rec], "c13_own", stats)[0]
+    nobj = sum(len(st) for st in o["states"])
+    counts["objects_reached_by_probe"] = nobj
+    counts["probe_states"] = nstates
+    if min(len(st) for st in o["states"]) < 120:
+        raise vlib.Infra("ownership probe reached only %d objects" % min(len(st) for st in o["states"]))
+    for oid in v["bad"]:
+        where = sorted({(k + 1, x["path"], x["type"]) for k, st in enumerate(o["states"]) for x in st if x["id"] == oid})
+        path = where[0][1]
+        verd.candidate("C13:per-state:shared-object:" + re.sub(r"[^A-Za-z0-9_.\[\]<>() -]", "", path)[:70].strip().replace(" ", "-"),
+                       "one and the same %s object is reachable from scripts of different states of the process: %s"
+                       % (where[0][2], "; ".join("state %d: %s" % (k, pth) for k, pth, _ in where)),
+                       {"kind": "own", "object": oid, "reached_as": where, "probe": OWN_PROBE, "states": nstates})
+    samples.append({"kind": "ownership-probe", "states": nstates, "objects": nobj, "shared": len(v["bad"]),
+                    "some_paths": [x["path"] for x in o["states"][0][:5]]})
+    vlib.log("[C13] ownership: %d objects reached from scripts of %d fresh states; PerStateTrace (TLC), law Disjoint: %d shared"
+             % (nobj, nstates, len(v["bad"])))
+    return nobj
 
 
 def decide_shared(groups, n, group, churn, verd, stats, counts, samples, distinct):
@@ -443,7 +608,16 @@ def decide_shared(groups, n, group, churn, verd, stats, counts, samples, distinc
                            {"kind": "shared", "program": p, "result": o, "verdict": v, "gomaxprocs": gof[p["id"]]})
     counts["proto_observations_validated"] = counts.get("proto_observations_validated", 0) + nobs
     vlib.log("[C13]   SharedProtoTrace (TLC) on %d observations of %d shared prototype trees (%.1fs)" % (nobs, len(precs), time.time() - t1))
-    # (b) every distinct trace of a corpus program goes to TLC (LuaSemTrace); identical ones are folded
+    # (b) AsAlone: every state observed what the same program observes alone - PerStateTrace (TLC)
+    t1 = time.time()
+    srecs = [{"id": p["id"], "kind": "solo", "own": [], "solo": [vlib.canon_hash(t)[:16] for t in outs[p["id"]]["seqs"]],
+              "runs": [{"w": v["w"], "fp": vlib.canon_hash(v["trace"])[:16]} for v in outs[p["id"]]["conc"]]} for p in progs]
+    deviating = {}
+    for v in perstate_verdicts(srecs, "c13_solo", stats):
+        if not v["ok"]:
+            deviating[v["id"]] = [i - 1 for i in v["bad"]]
+    vlib.log("[C13]   PerStateTrace (TLC), law AsAlone, on %d programs (%.1fs)" % (len(srecs), time.time() - t1))
+    # every distinct trace of a corpus program goes to TLC (LuaSemTrace); identical ones are folded
     vprogs, vouts, owner = [], {}, {}
     suspects = []
     for p in progs:
@@ -451,13 +625,13 @@ def decide_shared(groups, n, group, churn, verd, stats, counts, samples, distinc
         counts["states_run_from_shared_proto"] = counts.get("states_run_from_shared_proto", 0) + o["nstates"]
         counts["prototypes_snapshotted"] = counts.get("prototypes_snapshotted", 0) + o["proto_size"]
         seqs = o["seqs"]
-        variants = [(v["w"], v["trace"]) for v in o["conc"] if v["trace"] != seqs[v["w"]]]
+        variants = [(o["conc"][i]["w"], o["conc"][i]["trace"], o["conc"][i]["ph"]) for i in deviating.get(p["id"], [])]
         if p["fam"] == "corpus" and any(t != seqs[0] for t in seqs[1:]):
             raise vlib.Infra("corpus program %d depends on c13_which" % p["id"])
         if variants:
             suspects.append((p, o, variants))
         if p["fam"] == "corpus":
-            for j, t in enumerate([seqs[0]] + [t for _, t in variants]):
+            for j, t in enumerate([seqs[0]] + [t for _, t, _ in variants]):
                 vid = p["id"] * 100 + j
                 vprogs.append(dict(p, id=vid))
                 vouts[vid] = {"emits": t["emits"], "outcome": t["outcome"]}
@@ -497,15 +671,15 @@ def decide_shared(groups, n, group, churn, verd, stats, counts, samples, distinc
                 break
         if hit is None:
             raise vlib.Infra("program %d: a state on the shared prototype produced a different trace than the state alone, but 4 re-runs with 16 states did not reproduce it; first observation: %s"
-                             % (p["id"], json.dumps(variants[0][1])[:600]))
+                             % (p["id"], show_trace(variants[0][1])))
         tv = verdicts.get(p["id"] * 100 + 1)
-        w0, t0 = variants[0]
+        w0, t0, ph0 = variants[0]
         note = ("LuaSemTrace on the deviating trace: %s at event %s, expected %s, got %s"
                 % (tv.get("v"), tv.get("at"), lsem.tok_str(tv.get("exp")), lsem.tok_str(tv.get("got")))) if tv else \
-               ("oracle = the same program run alone on a private compilation with c13_which=%d; alone: %s, on the shared prototype: %s"
-                % (w0, show_trace(o["seqs"][w0]), show_trace(t0)))
-        verd.candidate("C13:shared-proto:trace-differs:" + p["fam"],
-                       "a state made from a shared prototype computed something else than the same program run alone (%s)" % note,
+               ("oracle = the same program run alone on a private compilation with c13_which=%d; alone: %s; next to other states (%s schedule): %s"
+                % (w0, show_trace(o["seqs"][w0]), ph0, show_trace(t0)))
+        verd.candidate(("C13:per-state:" + perstate_what(p) if p["fam"] == "perstate" else "C13:shared-proto:trace-differs:" + p["fam"]),
+                       "a state running next to other states computed something else than the same program run alone (%s)" % note,
                        {"kind": "shared", "program": p, "result": o, "rerun": hit, "gomaxprocs": gof[p["id"]]})
     for p in progs[len(progs) // 3:len(progs) // 3 + 2]:
         o = outs[p["id"]]
@@ -565,12 +739,13 @@ def run(tier):
     seed = vlib.seed()
     vlib.build_harness(race=True)
     vlib.specdir()          # create the scratch copy of specs/ before any thread uses it
-    pool = ThreadPoolExecutor(max_workers=4)
+    pool = ThreadPoolExecutor(max_workers=5 if thorough else 2)   # quick: at most two MC runs beside the binding
     lanes = [pool.submit(mc_lane, cfgs) for cfgs in (MC_THOROUGH if thorough else MC_QUICK)]
     reach = pool.submit(mc_reach)
     protomc = pool.submit(lambda: vlib.run_tlc("SharedProto", "SharedProto", workers=2, timeout=300))
+    permc = pool.submit(lambda: vlib.run_tlc("PerState", "PerState", consts={"MaxOps": 4 if thorough else 3}, workers=4, timeout=600))
     # (a) channel runs: the real scheduler is sampled at GOMAXPROCS 1 / 4 / 16
-    nscen = 2400 if thorough else 260
+    nscen = 2400 if thorough else 200
     nbig = 300 if thorough else 20
     distinct_chan, distinct_prog = set(), set()
     sid = 0
@@ -595,6 +770,8 @@ def run(tier):
                            8 if thorough else 6, 4, 3, verd, stats, counts, samples, distinct_prog)
     vlib.log("[C13] shared prototypes: %d programs, %d concurrent state traces identical to the run alone (%.0fs)"
              % (len(progs), nvalid, time.time() - t1))
+    # (b') ownership of everything a script can reach
+    decide_own(verd, stats, counts, samples)
     nlsem = counts.get("lsem", {})
     if nlsem.get("unmod", 0) > 0.05 * max(1, sum(nlsem.values())):
         raise vlib.Infra("out-of-model rate of the corpus exceeds 5%%: %s" % nlsem)
@@ -616,6 +793,10 @@ def run(tier):
     stats["states"] += r.distinct
     stats["transitions"] += r.generated
     vlib.log("[C13] MC SharedProto: %d generated / %d distinct states, Immutable and OwnName hold" % (r.generated, r.distinct))
+    r = permc.result()
+    stats["states"] += r.distinct
+    stats["transitions"] += r.generated
+    vlib.log("[C13] MC PerState: %d generated / %d distinct states, AsAlone and OwnDisjoint hold in every interleaving" % (r.generated, r.distinct))
     pool.shutdown()
     rc = verd.finish()
     vlib.write_evidence(PROP, tier, "model_checking", {
@@ -635,6 +816,7 @@ def run(tier):
         "a pending operation (call logged, return not) may or may not have taken effect; whether a pending rendezvous partner is parked is unobservable, so a select may take its default next to a pending partner",
         "prototype immutability is observed on fingerprints (sha1, 48 bits per field) of every exported field of every prototype of the chunk plus the string-constant table, taken after compilation, after the run alone and after the concurrent runs; the invariant is stated in SharedProto.tla and decided by SharedProtoTrace.tla",
         "the reference of every state is the same program run alone on a PRIVATE compilation with the same value of the global c13_which (0/1), so a shared prototype that is modified by one state shows in another state's trace",
+        "per-state ownership: the law (PerState.tla: Disjoint, AsAlone) is bound (i) by identity - a probe script walks globals, metatables, environments, upvalues, library handles and what package.loaded holds during/after a load in 3 fresh states of one process, no Go object may be reached from two states - and (ii) by behaviour - seeded math.random and require-marker programs under free-running goroutines and a deterministic lock-step schedule (c13_turn) must observe what they observe alone; state that is neither reachable by the probe nor exercised by a program is not covered",
         "payload admissibility is judged on the value itself (function, userdata, thread, table with metatable), not on values nested inside plain tables",
         "corpus programs whose trace diverges from LuaSem even when run alone are C01's business and are excluded here (counted as excluded_c01_divergent)"])
     return rc
@@ -655,6 +837,8 @@ def replay(path):
             "explained by a witness" if r["id"] in wit else "no admissible interleaving", laws[r["id"]]))
         for k in range(5):
             decide_chan([([rec["scenario"]], "replay%d" % k, rec.get("gomaxprocs", 4), 300, 1)], verd, stats, {}, [], set())
+    elif kind == "own":
+        decide_own(verd, stats, {}, [], rec.get("states", 3))
     elif kind == "shared":
         for k in range(3):
             decide_shared([([rec["program"]], "replay%d" % k, rec.get("gomaxprocs", 4))], 16, 1, 4, verd, stats, {}, [], set())
